@@ -103,7 +103,12 @@ func peach(fm *Frame, opts peachOpt, f Callable, inputs Inputs) error {
 			return
 		}
 		if workerSema != nil {
-			workerSema.Acquire(ctx, 1)
+			if workerSema.Acquire(ctx, 1) != nil {
+				// Interrupted while waiting for a worker: no permit is held, so
+				// don't start the callback (or release the semaphore later).
+				atomic.StoreInt32(&broken, 1)
+				return
+			}
 			// A callback may have broken or failed while we were waiting for a
 			// worker; don't start another one in that case.
 			if atomic.LoadInt32(&broken) != 0 {
